@@ -84,6 +84,12 @@ T = {
  'C13-m2': ('C13', 'TestResult.addSubTest re-arms the capture after a failing subtest; later output of the failing test is dropped by stopTest',
             '--buffer, a test with a failing subtest that writes afterwards without a further failure event',
             'C13 quick: C13:lost', 'caught at once'),
+ 'C18-m1': ('C18', 'Runner._enabled_warnings enters warnings.catch_warnings() only when the runner installs a filter itself',
+            'no warnings= argument (interpreter started with -W / PYTHONWARNINGS, or embedding code) and code in the test phase that touches the warnings machinery (filterwarnings / simplefilter / showwarning)',
+            'C18 quick: C18:not-restored|showwarning, C18:not-restored|warnFilters', 'caught at once'),
+ 'C18-m2': ('C18', 'TestResult.stopTest runs the layers\' testTearDown before restoring the --buffer streams',
+            '--buffer, the capture still armed at stopTest (test skipped from its body / setUp, or KeyboardInterrupt) and a layer testTearDown that raises',
+            'C18 quick: C18:not-restored|stdout (endings skipThenHookDown / kbintThenHookDown)', 'caught at once'),
 }
 
 
